@@ -146,11 +146,40 @@ def r4(idx, rep, pm):
             kinds.append(lit.group(1) if lit else t.strip())
     if not kinds:
         raise AnalysisError("print grammar rule `type` not found")
+    # interpreted: for every kind the grammar can produce, the reference is resolved against that kind's own data (however the
+    # handler picks it: if-chain, table, helper); a kind the handler does not know resolves against nothing
     for meth in ("_handle_local", "_handle_reference"):
         fi = idx.method("PrintParser", meth)
         rep.analysed(fi)
-        handled = {c.comparators[0].value for c in ast.walk(fi.node) if isinstance(c, ast.Compare) and unparse(c.left) == "atype" and isinstance(c.comparators[0], ast.Constant)}
-        rep.check(set(kinds) == handled, "R4", f"{fi.file}::PrintParser.{meth} handles every reference kind", f"grammar kinds {sorted(kinds)}, handled {sorted(handled)}", K.where(fi, fi.node))
+        got = {}
+        for kind in sorted(kinds) + ["no-such-kind"]:
+            seen = []
+
+            def transform(i, c, r, a, k, seen=seen):
+                ref = a[0]
+                seen.append(ref.get("data") if isinstance(ref, dict) else ref)
+                return "OUT"
+
+            def rt_local(i, c, r, a, k):
+                if len(a) > 1 and isinstance(a[1], dict):
+                    a[1]["__runtime__"] = True
+
+            handlers = {"self._transform_reference": transform, "self._get_runtime_data_from_local": rt_local,
+                        "self._get_results": lambda i, c, r, a, k: Obj("RESULTS"),
+                        "self._get_variables": lambda i, c, r, a, k: Obj("r:variables"), "self._get_headers": lambda i, c, r, a, k: Obj("r:headers"),
+                        "self._get_metadata": lambda i, c, r, a, k: Obj("r:metadata"), "self._get_runtime_data_from_results": lambda i, c, r, a, k: Obj("r:csvpath")}
+            it = Interp(idx, types={"self": "PrintParser"}, unknown_calls="residual", handlers=handlers)
+            store = {"self.csvpath.variables": Obj("l:variables"), "self.csvpath.headers": Obj("l:headers"), "self.csvpath.metadata": Obj("l:metadata")}
+            ps = it.run_all(fi, args={"ref": {"data_type": kind, "root": "$name.", "name": ["n", None]}}, store=store)
+            if len(ps) != 1 or ps[0].result != ("return", "OUT") or len(seen) != 1:
+                got[kind] = f"undecided ({[p.result for p in ps][:2]}, {len(seen)} transforms)"
+            else:
+                d = seen[0]
+                got[kind] = d.name[2:] if isinstance(d, Obj) else ("csvpath" if isinstance(d, dict) and d.get("__runtime__") else d)
+        want = {k: k for k in kinds}
+        want["no-such-kind"] = None
+        rep.check(got == want, "R4", f"{fi.file}::PrintParser.{meth} handles every reference kind",
+                  f"grammar kinds {sorted(kinds)}: the data each kind is resolved against is {got}; documented {want}", K.where(fi, fi.node))
     # the transformer has a callback for every rule / value-carrying terminal it needs
     need = {"printed", "TEXT", "WS", "reference", "ROOT", "name", "type", "SENTINEL", "SIMPLE_NAME", "QUOTED_NAME"}
     rep.check(need <= pm.callbacks, "R4", f"{pm.tcls.file}::LarkPrintTransformer callbacks", f"missing {sorted(need - pm.callbacks)}", pm.tcls.file)
